@@ -99,7 +99,7 @@ def execute_case(sub, case, known, stats, count=True):
         stats.inconclusive += 1
         return
     except BaseException as e:
-        if isinstance(e, (KeyboardInterrupt, SystemExit, MemoryError)):
+        if isinstance(e, (KeyboardInterrupt, SystemExit, MemoryError)) or type(e).__name__ == "ReplayTimeout":
             raise
         tb = e.__traceback__
         fid = None
@@ -221,7 +221,7 @@ def replay_case(prop_id, sub_name, case):
     try:
         execute_case(sub, case, known, stats, count=False)
     except BaseException as e:
-        if isinstance(e, (KeyboardInterrupt, SystemExit, MemoryError)):
+        if isinstance(e, (KeyboardInterrupt, SystemExit, MemoryError)) or type(e).__name__ == "ReplayTimeout":
             raise
         if stats.failure is None:
             stats.failure = describe_failure(case, e, e.__traceback__)
